@@ -21,6 +21,14 @@ Streams
              (after `*` and after `*args`, with and without default), positional-only and `**`
              parameters of functions, methods, `__init__`, nested functions and lambdas; rename
              from the parameter, from a use in the body and from the call-site keyword.
+  refs/globals, render/globals, oracle (tag globals)
+             generated programs in which ONE module variable is (re)bound through `global` declarations
+             of two or three scopes (gen/globalvars.py: top-level functions, nested functions, functions
+             in class bodies, class bodies; readers with and without declaration; with and without a
+             module-level binding): all clauses from every occurrence, in particular from inside each
+             declaring scope.
+  globalstep references.py:_find_global_variables alone (called on what _find_names answers, flow analysis
+             off) vs Model.RefsGlobal.globalVariablesOf with the guard the translator reads from the source.
 """
 import ast
 import os
@@ -34,7 +42,7 @@ from props import c05_kwparams as KW
 from gen import kwparams as GK
 from gen import globalvars as GV
 
-MODELS = ['Scopes', 'Refs', 'RefsMulti', 'KwBind']
+MODELS = ['Scopes', 'Refs', 'RefsGlobal', 'RefsMulti', 'KwBind']
 LEAN_TARGETS = ['JediModel.Props.C05', 'JediModel.Drivers.C05']
 MANIFEST = dict(
     text='Theorems: refs_sound_partial (every reported reference denotes the variable under the cursor, for '
@@ -63,12 +71,23 @@ MANIFEST = dict(
          'filter without KEYWORD_ONLY; tie: Script.goto on the keyword of a call = the model, for all well-formed signatures '
          'of <= 3 parameters x every keyword x function/method/__init__ (stream kwgoto). Direct oracle on generated programs '
          'whose parameters of every kind are passed by keyword (stream kwparam) and on multi-module projects with keyword '
-         'calls across modules.',
+         'calls across modules. Module variables living through `global` statements of several scopes '
+         '(Model/RefsGlobal: _find_global_variables with its decision which `global x` statements are linked to the found '
+         'names as a parameter the translator reads from the loop body - no guard / `continue` unless the found name is '
+         'a module name or sits in the scope of the statement; TieBroken otherwise): global_step_links_every_statement '
+         '(every `global x` name of the module and every definition of x in its scope is yielded, whatever the found names), '
+         'global_writers_are_references (for every program and every start spelled x: every `global x` statement and every '
+         'binding of x in a scope that declares it - a binding of the module variable, varOf = 0 - is among the references, '
+         'also from inside another declaring scope), refsG_is_refs (the parametrised model run by the correspondence is the '
+         'model of the older theorems), same_scope_only_loses_global_writers (kernel-checked counter-model for the guarded '
+         'shape: two declaring functions, the writer of the other one is lost and the sets are no partition). Ties: stream '
+         'globalstep (the real _find_global_variables = the model, on every program with a global statement), refs/render on '
+         'generated programs with two or three declaring scopes (gen/globalvars.py); the direct oracle executes them.',
     note='Modelled not verified: the Scopes fragment (straight-line bodies, no imports) for one module; for several '
          'modules only the scan loop is modelled (what goto answers for a token across imports is an input of the model); '
          'import resolution, file/package renames and the project-wide file search are covered by the direct oracle on '
          'generated projects (stream multimod) only.',
-    technique='Lean 4 proof over hand-written model + differential correspondence + execution oracle',
+    technique='Lean 4 proof over hand-written model (global step parametrised by the guard read from the source) + differential correspondence (find_references, _find_global_variables, keyword goto) + execution oracle',
     design='5.C05')
 
 FRESH = 'zz_new'
